@@ -258,9 +258,9 @@ def _gen_case(rng, tier, origins):
 def _reach():
     edit, torrent, commands = drive.mod("edit"), drive.mod("torrent"), drive.mod("commands")
     r = env.Reach()
-    r.start({"edit.filter_empty": edit.filter_empty, "edit.edit_torrent": edit.edit_torrent,
-             "MetaFile.sort_meta": torrent.MetaFile.sort_meta, "MetaFile.write": torrent.MetaFile.write,
-             "commands.edit": commands.edit})
+    r.start({"edit.filter_empty": env.Tolerant(edit).filter_empty, "edit.edit_torrent": env.Tolerant(edit).edit_torrent,
+             "MetaFile.sort_meta": env.Tolerant(torrent).MetaFile.sort_meta, "MetaFile.write": env.Tolerant(torrent).MetaFile.write,
+             "commands.edit": env.Tolerant(commands).edit})
     return r
 
 
